@@ -56,6 +56,43 @@ fn virtual_time_connections(rep: &Report) -> u64 {
             }
         }
     }
+    // uptime: logins of one process spread over four and a half (virtual) days - every six hours one, all under one
+    // clock -, each hashing the key it was itself sent
+    {
+        let cases: Vec<Case> = (0..19u64)
+            .map(|k| {
+                let mut c = Case::default();
+                c.script = Login { name: format!("Day{k}"), ..Default::default() }.steps();
+                if k > 0 {
+                    c.script[0].when = When::IdleAfter(k * 6 * 3_600_000);
+                }
+                c.secret = *b"uptime-secret-00";
+                c.secret[15] = b'a' + k as u8;
+                c.horizon_ms = 19 * 6 * 3_600_000 + 60_000;
+                c
+            })
+            .collect();
+        let all = sim::run_many(&cases);
+        for (k, (case, obs)) in cases.iter().zip(&all).enumerate() {
+            n += 1;
+            let seen_key = obs.packets.iter().find_map(|(_, p)| if let Pkt::EncryptionRequest { public_key, .. } = p { Some(public_key.clone()) } else { None });
+            let call = obs.calls.iter().find_map(|c| if let Call::Auth { secret, pubkey, .. } = c { Some((secret.clone(), pubkey.clone())) } else { None });
+            let replay = json!({"virtual": "uptime", "hours": k * 6});
+            match (seen_key, call) {
+                (Some(key), Some((secret, pubkey))) => {
+                    let (used, expected) = (minecraft_hash("", &secret, &pubkey), enumk::c11::reference("", &case.secret, &key));
+                    if used != expected {
+                        rep.violation(Violation { key: "connection-hash-differs:after-hours-of-uptime".into(), text: format!("a login {} hours after the first one of the process: the session service would be asked with {used}, the client computes {expected} from the secret it sent and the key it was sent", k * 6), replay, weight: k as u64 });
+                        break;
+                    }
+                }
+                (k2, c) => {
+                    rep.violation(Violation { key: "connection-not-authenticated:after-hours-of-uptime".into(), text: format!("a login {} hours after the first one of the process: encryption request seen: {}, authentication consulted: {}; result {:?}", k * 6, k2.is_some(), c.is_some(), obs.result), replay, weight: k as u64 });
+                    break;
+                }
+            }
+        }
+    }
     n
 }
 
